@@ -70,10 +70,9 @@ def _candidate(fn: ast.FunctionDef, exported):
         if isinstance(n, ast.Call) and isinstance(n.func, ast.Name) and n.func.id == fn.name:
             return False
     rets = [n for n in ast.walk(fn) if isinstance(n, ast.Return)]
-    if len(rets) > 1:
-        return False
-    if rets and rets[0] is not body[-1]:
-        return False
+    if len(rets) > 1 or (rets and rets[0] is not body[-1]):
+        # several exits: such a helper can still replace a tail call `return h(..)` -- its returns become the caller's returns
+        return "tail"
     return True
 
 
@@ -96,15 +95,16 @@ def _simple_arg(e):
     return isinstance(e, (ast.Name, ast.Constant))
 
 
-def _inline_call(helper: ast.FunctionDef, call: ast.Call, targets, as_return, site):
+def _inline_call(helper: ast.FunctionDef, call: ast.Call, targets, as_return, site, tail=False, recv=None):
     """-> list of statements replacing the call statement, or None if the call cannot be matched to the parameters"""
     params = [p.arg for p in helper.args.args]
     defaults = helper.args.defaults
     dmap = {p: d for p, d in zip(params[len(params) - len(defaults):], defaults)}
-    if any(isinstance(x, ast.Starred) for x in call.args) or any(k.arg is None for k in call.keywords) or len(call.args) > len(params):
+    pos_args = ([recv] if recv is not None else []) + list(call.args)
+    if any(isinstance(x, ast.Starred) for x in call.args) or any(k.arg is None for k in call.keywords) or len(pos_args) > len(params):
         return None
     actual = {}
-    for p, a in zip(params, call.args):
+    for p, a in zip(params, pos_args):
         actual[p] = a
     for k in call.keywords:
         if k.arg not in params or k.arg in actual:
@@ -158,7 +158,11 @@ def _inline_call(helper: ast.FunctionDef, call: ast.Call, targets, as_return, si
             return n
     body = [R().visit(copy.deepcopy(st)) for st in _strip_doc(helper.body)]
     out = pre
-    if body and isinstance(body[-1], ast.Return):
+    if tail and as_return:
+        out += body
+        if not (body and isinstance(body[-1], ast.Return)):
+            out.append(ast.Return(value=ast.Constant(value=None)))
+    elif body and isinstance(body[-1], ast.Return):
         ret = body.pop()
         out += body
         val = ret.value if ret.value is not None else ast.Constant(value=None)
@@ -184,15 +188,54 @@ def _inline_call(helper: ast.FunctionDef, call: ast.Call, targets, as_return, si
 
 
 class _Inliner(ast.NodeTransformer):
-    def __init__(self, helpers):
+    def __init__(self, helpers, kinds=None, methods=None):
         self.helpers = helpers
+        self.kinds = kinds or {}
+        self.methods = methods or {}      # class name -> {method name: (FunctionDef, kind)}
         self.count = 0
         self.used = set()
         self.cur = None
+        self.cur_cls = None
+        self.cur_recv = None
+
+    def visit_ClassDef(self, node):
+        prev, self.cur_cls = self.cur_cls, node.name
+        self.generic_visit(node)
+        self.cur_cls = prev
+        return node
+
+    def _try_method(self, st):
+        """`self._m(..)` inside a method of the same class, for private methods the rules do not know"""
+        if self.cur_cls is None or self.cur_recv is None or self.cur_cls not in self.methods:
+            return None
+        call = targets = None
+        as_return = False
+        if isinstance(st, ast.Assign) and isinstance(st.value, ast.Call):
+            call, targets = st.value, st.targets
+        elif isinstance(st, ast.Expr) and isinstance(st.value, ast.Call):
+            call = st.value
+        elif isinstance(st, ast.Return) and isinstance(st.value, ast.Call):
+            call, as_return = st.value, True
+        if call is None or not (isinstance(call.func, ast.Attribute) and isinstance(call.func.value, ast.Name) and call.func.value.id == self.cur_recv):
+            return None
+        ent = self.methods[self.cur_cls].get(call.func.attr)
+        if ent is None or call.func.attr == self.cur:
+            return None
+        h, kind = ent
+        if kind == "tail" and not as_return:
+            return None
+        new = _inline_call(h, call, targets, as_return, st, tail=kind == "tail", recv=ast.Name(id=self.cur_recv, ctx=ast.Load()))
+        if new is not None:
+            self.count += 1
+            self.used.add(f"{self.cur_cls}.{h.name}")
+        return new
 
     def _try(self, st):
         call = targets = None
         as_return = False
+        rep = self._try_method(st)
+        if rep is not None:
+            return rep
         if isinstance(st, ast.Assign) and isinstance(st.value, ast.Call):
             call, targets = st.value, st.targets
         elif isinstance(st, ast.Expr) and isinstance(st.value, ast.Call):
@@ -202,7 +245,9 @@ class _Inliner(ast.NodeTransformer):
         if call is None or not isinstance(call.func, ast.Name) or call.func.id not in self.helpers or call.func.id == self.cur:
             return None
         h = self.helpers[call.func.id]
-        new = _inline_call(h, call, targets, as_return, st)
+        if self.kinds.get(h.name) == "tail" and not as_return:
+            return None
+        new = _inline_call(h, call, targets, as_return, st, tail=self.kinds.get(h.name) == "tail")
         if new is not None:
             self.count += 1
             self.used.add(h.name)
@@ -230,8 +275,12 @@ class _Inliner(ast.NodeTransformer):
 
     def visit_FunctionDef(self, node):
         prev, self.cur = self.cur, node.name
+        prev_r = self.cur_recv
+        self.cur_recv = node.args.args[0].arg if (self.cur_cls is not None and node.args.args and not any(
+            (isinstance(d, ast.Name) and d.id in ("staticmethod", "classmethod")) for d in node.decorator_list)) else None
         self.generic_visit(node)
         self.cur = prev
+        self.cur_recv = prev_r
         return node
 
 
@@ -383,21 +432,48 @@ def normalise_module(tree: ast.Module, exported=(), unroll=True):
     tree = copy.deepcopy(tree)
     info = {"helpers_inlined": [], "call_sites": 0}
     for _round in range(3):
-        helpers = {st.name: st for st in tree.body if isinstance(st, ast.FunctionDef) and _candidate(st, set(exported))}
-        if not helpers:
+        kinds = {st.name: _candidate(st, set(exported)) for st in tree.body if isinstance(st, ast.FunctionDef)}
+        helpers = {st.name: st for st in tree.body if isinstance(st, ast.FunctionDef) and kinds.get(st.name)}
+        # private methods (unknown to the rules, not overridden / defined twice in the module) called on the receiver itself
+        mcount = {}
+        for c_ in tree.body:
+            if isinstance(c_, ast.ClassDef):
+                for m_ in c_.body:
+                    if isinstance(m_, ast.FunctionDef):
+                        mcount[m_.name] = mcount.get(m_.name, 0) + 1
+        methods = {}
+        for c_ in tree.body:
+            if isinstance(c_, ast.ClassDef):
+                for m_ in c_.body:
+                    if isinstance(m_, ast.FunctionDef) and mcount.get(m_.name) == 1 and m_.args.args:
+                        k_ = _candidate(m_, set(exported))
+                        if k_:
+                            methods.setdefault(c_.name, {})[m_.name] = (m_, k_)
+        if not helpers and not methods:
             break
-        inl = _Inliner(helpers)
+        inl = _Inliner(helpers, {k: v for k, v in kinds.items() if v}, methods)
         inl.visit(tree)
         if not inl.count:
             break
         info["call_sites"] += inl.count
         info["helpers_inlined"] = sorted(set(info["helpers_inlined"]) | inl.used)
-    helpers = {st.name: st for st in tree.body if isinstance(st, ast.FunctionDef) and _candidate(st, set(exported))}
+    helpers = {st.name: st for st in tree.body if isinstance(st, ast.FunctionDef) and _candidate(st, set(exported)) is True}
     if helpers:
         ei = _ExprInliner(helpers)
         ei.visit(tree)
         info["call_sites"] += ei.count
         info["helpers_inlined"] = sorted(set(info["helpers_inlined"]) | ei.used)
+    # helpers whose every call was inlined are dead code on the normal form: dropped, so that no rule judges the helper out of context
+    refs = {n.id for n in ast.walk(tree) if isinstance(n, ast.Name) and isinstance(n.ctx, ast.Load)} | \
+           {n.attr for n in ast.walk(tree) if isinstance(n, ast.Attribute)}
+    dead = {h for h in info["helpers_inlined"] if "." not in h and h not in refs}
+    if dead:
+        tree.body = [st for st in tree.body if not (isinstance(st, ast.FunctionDef) and st.name in dead)]
+    for c_ in tree.body:
+        if isinstance(c_, ast.ClassDef):
+            deadm = {h.split(".", 1)[1] for h in info["helpers_inlined"] if h.startswith(c_.name + ".") and h.split(".", 1)[1] not in refs}
+            if deadm:
+                c_.body = [m_ for m_ in c_.body if not (isinstance(m_, ast.FunctionDef) and m_.name in deadm)] or [ast.Pass()]
     info["loops_unrolled"] = 0
     if unroll:
         un = _Unroller()
